@@ -22,12 +22,19 @@ Qed.
 Lemma qual_spec {A} R k (x : @vrec A) : qual R k x = true <-> vr_key x = k /\ 0 < vr_rev x /\ vr_rev x <= R.
 Proof. unfold qual. rewrite !andb_true_iff, beqb_eq, N.ltb_lt, N.leb_le. tauto. Qed.
 
+(* at most one record per (key, revision) *)
+Definition functional {A} (V : list (@vrec A)) : Prop :=
+  forall x y, In x V -> In y V -> vr_key x = vr_key y -> vr_rev x = vr_rev y -> x = y.
+
+Lemma sorted_is_functional {A} (V : list (@vrec A)) : StronglySorted vr_lt V -> functional V.
+Proof. intros S x y. apply sorted_functional. exact S. Qed.
+
 (* newest is determined by the set of qualifying records *)
-Lemma newest_charact {A} (V : list (@vrec A)) R k r a : StronglySorted vr_lt V ->
+Lemma newest_charact_f {A} (V : list (@vrec A)) R k r a : functional V ->
   (newest V R k = Some (r, a) <->
    In (k, r, a) V /\ 0 < r /\ r <= R /\ forall y, In y V -> qual R k y = true -> vr_rev y <= r).
 Proof.
-  intros S. split.
+  intros FU. split.
   - intros H. destruct (newest_in V R k r a H) as (I & H1 & H2). repeat split; try assumption.
     apply (newest_max V R k r a H).
   - intros (I & H1 & H2 & M).
@@ -38,8 +45,13 @@ Proof.
     assert (Q' : qual R k (k, r', a') = true) by (apply qual_spec; cbn; auto).
     pose proof (M _ I' Q') as G2. cbn in G2.
     assert (r' = r) by lia. subst r'.
-    pose proof (sorted_functional V S _ _ I I' eq_refl eq_refl) as EQ. injection EQ as <-. reflexivity.
+    pose proof (FU _ _ I I' eq_refl eq_refl) as EQ. injection EQ as <-. reflexivity.
 Qed.
+
+Lemma newest_charact {A} (V : list (@vrec A)) R k r a : StronglySorted vr_lt V ->
+  (newest V R k = Some (r, a) <->
+   In (k, r, a) V /\ 0 < r /\ r <= R /\ forall y, In y V -> qual R k y = true -> vr_rev y <= r).
+Proof. intros S. apply newest_charact_f. apply sorted_is_functional. exact S. Qed.
 
 Lemma newest_none_iff {A} (V : list (@vrec A)) R k : newest V R k = None <-> forall y, In y V -> qual R k y = false.
 Proof.
@@ -92,16 +104,16 @@ Qed.
 Lemma vrec_dec (x y : vrecb) : {x = y} + {x <> y}.
 Proof. repeat decide equality. Qed.
 
-Theorem snapshot_compacted V V' F R : StronglySorted vr_lt V -> StronglySorted vr_lt V' -> compacted V V' F -> F <= R ->
+Theorem snapshot_compacted_f V V' F R : functional V -> functional V' -> compacted V V' F -> F <= R ->
   snapshot V' R = snapshot V R.
 Proof.
   intros S S' (Sub & Rem & Down) HF. apply snapshot_agree; [|exact Sub].
   intros k. unfold vpick, pick.
   destruct (newest V R k) as [[r a]|] eqn:N1.
-  - apply (newest_charact V R k r a S) in N1 as (H1 & H2 & H3 & M).
+  - apply (newest_charact_f V R k r a S) in N1 as (H1 & H2 & H3 & M).
     destruct (in_dec vrec_dec (k, r, a) V') as [IN|NIN].
     + replace (newest V' R k) with (Some (r, a)); [reflexivity|].
-      symmetry. apply (newest_charact V' R k r a S'). repeat split; auto.
+      symmetry. apply (newest_charact_f V' R k r a S'). repeat split; auto.
     + (* the newest version was removed: it was a deletion marker, and everything older went with it *)
       destruct (Rem _ H1 NIN) as [Z|(HF' & [T|(y & Hy & Ky & Lt1 & Lt2)])]; cbn [vr_rev vr_val vr_key fst snd] in *.
       * lia.
@@ -110,13 +122,17 @@ Proof.
         symmetry. apply newest_none_iff. intros y Hy. destruct (qual R k y) eqn:Q; [|reflexivity]. exfalso.
         pose proof (M y (Sub y Hy) Q) as Le. apply qual_spec in Q as (Ky & P0 & PR).
         destruct (N.eq_dec (vr_rev y) r) as [Er|Ne].
-        -- apply NIN. rewrite <- (sorted_functional V S y (k, r, tombstone) (Sub y Hy) H1 Ky Er). exact Hy.
+        -- apply NIN. rewrite <- (S y (k, r, tombstone) (Sub y Hy) H1 Ky Er). exact Hy.
         -- apply (Down (k, r, tombstone) y H1 NIN H2 (Sub y Hy) Ky P0); [cbn; lia|exact Hy].
       * exfalso. assert (Q : qual R k y = true) by (apply qual_spec; repeat split; [exact Ky|lia|lia]).
         specialize (M y Hy Q). lia.
   - replace (newest V' R k) with (@None (N * bytes)); [reflexivity|].
     symmetry. apply newest_none_iff. intros y Hy. apply (proj1 (newest_none_iff V R k) N1 y (Sub y Hy)).
 Qed.
+
+Theorem snapshot_compacted V V' F R : StronglySorted vr_lt V -> StronglySorted vr_lt V' -> compacted V V' F -> F <= R ->
+  snapshot V' R = snapshot V R.
+Proof. intros S S'. apply snapshot_compacted_f; apply sorted_is_functional; assumption. Qed.
 
 (* ---------- the client-level specification ---------- *)
 Notation vreco := (@vrec (option bytes)).
